@@ -190,8 +190,18 @@ def recipe_case(items):
                         if k[0] == "S":
                             touch(node.children[k[1]], k)
 
+                # a sub-strategy sets its own mode: securities it creates later inherit from IT
+                locals_ = [c for c in root.children.values() if isinstance(c, bt.core.StrategyBase)]
+                for c in locals_:
+                    c.use_integer_positions(True)
                 touch(root, recipe)
                 root.update(data.index[0])
+                for c in locals_:
+                    for x in c.members:
+                        if x.integer_positions is not True:
+                            out.append(("local_integer_positions", {"node": x.full_name, "integer_positions": True}, x.integer_positions))
+                # ... and a second push from the top (with the value the root already has) reaches everybody
+                root.use_integer_positions(False)
                 mem2, pre2 = root.members, preorder(root)
                 if [id(x) for x in mem2] != [id(x) for x in pre2]:
                     out.append(("members_after_lazy_creation", [x.full_name for x in pre2], [x.full_name for x in mem2]))
